@@ -304,6 +304,7 @@ class CompMixin:
     b = {}
     b['len'] = B('len', _b_len)
     b['set'] = B('set', _b_set)
+    b['sys.maxsize'] = V(S.INT, z3.IntVal(2 ** 63 - 1))
     b['frozenset'] = B('frozenset', _b_set)
     b['tuple'] = B('tuple', _b_tuple)
     b['list'] = B('list', _b_tuple)
